@@ -829,7 +829,11 @@ func replayBehaviour(t testing.TB, env *venv, rep *kit.Report, b kit.V, idx int,
 			return
 		}
 		diverged[key] = true
-		rep.Diverge(key, what, map[string]interface{}{"behaviour": idx, "signature": sig}, exp, obs)
+		c := map[string]interface{}{"index": idx, "signature": sig, "class": b.Get("class").Str()}
+		if rep.NDivergences() < 12 {
+			c["behaviour"] = b.X // complete behaviour: ./vcheck <ID> --replay <file> re-runs it
+		}
+		rep.Diverge(key, what, c, exp, obs)
 	}
 	defer func() {
 		if x := recover(); x != nil {
